@@ -70,6 +70,8 @@ BUILTINS['iter'] = iter
 BUILTINS['enumerate'] = lambda x, start=0: list(enumerate(x, start))
 BUILTINS['str'] = str
 BUILTINS['tuple'] = tuple
+BUILTINS['set'] = set
+METHODS.add((set, 'add'))
 BUILTINS['sorted'] = sorted
 BUILTINS['any'] = any
 BUILTINS['all'] = all
